@@ -73,6 +73,20 @@ C_FUNCS = [
     ("src/core/tuple.c", "core", "cfun_tuple_slice"),
     ("src/core/tuple.c", "core", "cfun_tuple_join"),
     ("src/core/corelib.c", "core", "janet_core_range"),
+    # session 4
+    ("src/core/buffer.c", "fn", "should_reverse_bytes"),
+    ("src/core/buffer.c", "fn", "reverse_u32"),
+    ("src/core/buffer.c", "fn", "reverse_u64"),
+    ("src/core/buffer.c", "core", "cfun_buffer_push_uint16"),
+    ("src/core/buffer.c", "core", "cfun_buffer_push_uint32"),
+    ("src/core/buffer.c", "core", "cfun_buffer_push_uint64"),
+    ("src/core/buffer.c", "core", "cfun_buffer_new_filled"),
+    ("src/core/array.c", "fn", "janet_array_pop"),
+    ("src/core/array.c", "fn", "janet_array_peek"),
+    ("src/core/array.c", "core", "cfun_array_new_filled"),
+    ("src/core/array.c", "core", "cfun_array_pop"),
+    ("src/core/array.c", "core", "cfun_array_peek"),
+    ("src/core/array.c", "core", "cfun_array_push"),
 ]
 
 # boot.janet definitions (defn / defn- / defmacro / defmacro-)
